@@ -2,7 +2,7 @@
 
 Scenarios (vlib/scenario.py grammar) that run a Plutus script (spending with the script in the witness set, spending
 through a reference script only, minting) over wallets built around the collateral amount
-`max_tx_fee * collateral_percent // 100`; each scenario is executed by the real `TransactionBuilder`.
+`ceil(max_tx_fee * collateral_percent / 100)`; each scenario is executed by the real `TransactionBuilder`.
 
 (a) direct evaluation of the property on the *body bytes* (decoded by ref/ledger_ref.py, nothing of pycardano) against
     the scenario's own UTxO map, in integer arithmetic:
@@ -37,10 +37,9 @@ from ref import ledger_ref as L
 from vlib import scenario as S
 from vlib import values as V
 
-KF_DUP = "KF-C13-dup-candidate"   # same UTxO reachable through two candidate lists: appended and summed twice
-KF_MAX = "KF-C13-max-inputs"      # max_collateral_inputs is never consulted
+# Repaired in /repo (regressions are plain violations; their witnesses stay in corpus()):
+#   KF-C13-dup-candidate f40c521, KF-C13-max-inputs 81c8cba, KF-C13-floor 3308efc
 KF_FEEBUF = "KF-C13-fee-buffer"   # collateral sized from max_tx_fee, fee inflated beyond it by fee_buffer
-KF_FLOOR = "KF-C13-floor"         # collateral amount rounded down (//) where the ledger's inequality needs the ceiling
 
 # the builder's @log_state decorator pretty-prints the whole builder after every build (and to stderr on every explicit
 # failure): observably irrelevant, and a third of the run time under the pure-Python CBOR backend
@@ -221,15 +220,9 @@ def correspondence(ctx, sc, rec):
     return m
 
 
-def dup_predicate(rec):
-    """KF-C13-dup-candidate: automatic selection, a UTxO reference reachable through the candidate lists more than
-    once (inputs / potential inputs / address UTxOs) was appended to builder.collaterals more than once"""
-    e, x = rec["entry"], rec.get("exit")
-    if x is None or e["explicit"]:
-        return False
-    cands = [(u["txid"], u["ix"]) for k in ("inputs", "potential", "addr_utxos") for u in e[k]]
-    chosen = [tuple(c) for c in x["collaterals"]]
-    return any(chosen.count(c) >= 2 and cands.count(c) >= 2 for c in set(chosen))
+def collateral_amount(p, ref_size):
+    """independent oracle of the required collateral: ceil(max_tx_fee * percent / 100)"""
+    return -(-oracle_max_fee(p, ref_size) * int(p["collateral_percent"]) // 100)
 
 
 def judge(ctx, sc, r, rec):
@@ -265,20 +258,14 @@ def judge(ctx, sc, r, rec):
     if len(refs) < 1:
         viol("a transaction running a Plutus script names no collateral input", ">= 1", 0)
         return
-    chosen_mult = [tuple((c[0], int(c[1]))) for c in (rec["exit"]["collaterals"] if rec and "exit" in rec else [])]
-    ref_size = int(rec["entry"]["ref_size"]) if rec else 0
-    amt = oracle_max_fee(p, ref_size) * percent // 100
     if len(refs) > maxin:
-        if auto:
-            # narrow predicate: the limit is exceeded by a selection in which every input but the last was needed
-            # (prefix short of the collateral amount, or its return would be needed but below its minimum)
-            fid = KF_MAX if selection_minimal(sc, p, amt, chosen_mult, umap, rec) else None
-            viol(f"{len(refs)} distinct collateral inputs, max_collateral_inputs = {maxin}", f"<= {maxin}", len(refs),
-                 finding=fid)
-            ctx.count("kf:max-inputs" if fid else "violation:max-inputs")
-        else:
-            ctx.skipped += 1
-            ctx.count("skip:explicit-collateral-above-limit")
+        viol(f"{len(refs)} distinct collateral inputs, max_collateral_inputs = {maxin}", f"<= {maxin}", len(refs))
+    # -- the builder's own list names no UTxO twice (the body's ordered set would hide it)
+    if auto and rec is not None and "exit" in rec:
+        lst = [tuple(c) for c in rec["exit"]["collaterals"]]
+        if len(set(lst)) != len(lst):
+            viol("the same UTxO was chosen as collateral twice (builder.collaterals)", "pairwise distinct",
+                 [f"{t[:8]}#{i}" for t, i in lst])
     # -- key-locked, > 2 ADA
     for x in refs:
         u = umap[x]
@@ -295,39 +282,23 @@ def judge(ctx, sc, r, rec):
     assets = {}
     for x in refs:
         add_assets(assets, umap[x]["assets"])
+    assets = {k: q for k, q in assets.items() if q}
     ret = body.collateral_return
     ret_coin = ret["coin"] if ret else 0
     ret_assets = {k: q for k, q in (ret["assets"] if ret else {}).items() if q}
     forfeit = coin - ret_coin
-    dup = bool(rec) and dup_predicate(rec)
-    # the same quantities with the multiplicity of builder.collaterals (what the code summed)
-    mcoin = sum(umap[x]["coin"] for x in chosen_mult) if chosen_mult else coin
-    massets = {}
-    for x in chosen_mult:
-        add_assets(massets, umap[x]["assets"])
-
-    def dup_explains(ok_with_multiplicity):
-        return KF_DUP if (dup and ok_with_multiplicity) else None
-
+    ref_size = int(rec["entry"]["ref_size"]) if rec else 0
     if body.total_collateral is not None and forfeit != body.total_collateral:
-        fid = dup_explains(mcoin - ret_coin == body.total_collateral)
-        viol("collateral inputs - collateral return != declared total_collateral", body.total_collateral, forfeit, fid)
-        ctx.count("kf:dup-total" if fid else "violation:total")
+        viol("collateral inputs - collateral return != declared total_collateral", body.total_collateral, forfeit)
     if forfeit * 100 < body.fee * percent:
-        fid = dup_explains((mcoin - ret_coin) * 100 >= body.fee * percent)
-        mf = oracle_max_fee(p, ref_size)
-        if fid is None and body.fee > mf and any(o["op"] == "c13_fee_buffer" for o in sc["ops"]):
+        fid = None
+        if body.fee > oracle_max_fee(p, ref_size) and any(o["op"] == "c13_fee_buffer" for o in sc["ops"]):
             fid = KF_FEEBUF
-        # shortfall of less than one lovelace, at fee == max_tx_fee exactly: the floor of `* percent // 100`
-        if fid is None and body.fee == mf and forfeit == mf * percent // 100 and (mf * percent) % 100 != 0:
-            fid = KF_FLOOR
         viol("forfeitable collateral is below collateral_percent of the fee", f">= {body.fee * percent} / 100", forfeit, fid)
         ctx.count(("kf:" + fid) if fid else "violation:percent")
     if ret_assets != assets:
-        fid = dup_explains(ret_assets == {k: q for k, q in massets.items() if q})
         viol("collateral return does not carry exactly the native assets of the collateral inputs",
-             {f"{k[0]}.{k[1]}": q for k, q in assets.items()}, {f"{k[0]}.{k[1]}": q for k, q in ret_assets.items()}, fid)
-        ctx.count("kf:dup-assets" if fid else "violation:assets")
+             {f"{k[0]}.{k[1]}": q for k, q in assets.items()}, {f"{k[0]}.{k[1]}": q for k, q in ret_assets.items()})
     if ret is not None:
         mn = L.min_utxo(ret, cpb)
         if ret["coin"] < mn:
@@ -337,34 +308,11 @@ def judge(ctx, sc, r, rec):
         ctx.count("return:absent")
     if body.total_collateral is None and ret is not None:
         viol("collateral return without declared total_collateral", "declared", None)
-    if dup:
-        ctx.count("dup-appended")
     ctx.count("judged")
+    if body.fee == oracle_max_fee(p, ref_size):
+        ctx.count("fee==max_tx_fee")
     if body.fee * percent * 10 >= forfeit * 100 * 9:
         ctx.count("fee-within-10%-of-collateral-bound")
-
-
-def selection_minimal(sc, p, amt, chosen_mult, umap, rec):
-    """every chosen input but the last left the running total inadequate: short of `amt`, or a return would be due
-    (> max(threshold, 1 ADA) or assets) but below its minimum ADA"""
-    if not chosen_mult or rec is None:
-        return False
-    cpb = int(p["cpb"])
-    thr = max(int(rec["entry"]["threshold"]), ADA)
-    addr = bytes.fromhex(rec["entry"]["ret_addr"])
-    coin, assets = 0, {}
-    for x in chosen_mult[:-1]:
-        coin += umap[x]["coin"]
-        add_assets(assets, umap[x]["assets"])
-    if coin < amt:
-        return True
-    left = coin - amt
-    a = {k: q for k, q in assets.items() if q}
-    if left > thr or a:
-        o = {"addr": addr, "coin": left if left else ADA, "assets": a, "datum_hash": None, "inline_datum": None,
-             "script_ref": None}
-        return left < L.min_utxo(o, cpb)
-    return False
 
 
 def histogram(ctx, sc, rec):
@@ -492,7 +440,7 @@ def gen_scenario(rng, idx, mode="full", force=None):
     kind = rng.choices(["spend-witness", "spend-ref", "mint", "spend-ref+mint"], weights=[45, 25, 20, 10])[0]
     p = {**S.DEFAULT_PARAMS, **params}
     ref_size = 41 if "ref" in kind else 0
-    amt = oracle_max_fee(p, ref_size) * params["collateral_percent"] // 100
+    amt = collateral_amount(p, ref_size)
     thr = rng.choice([ADA, ADA, ADA, 0, 2 * ADA, 5 * ADA, amt])
     utxos, ops, addr_utxos = [], [], {"k0": [], "k1": []}
     tag = f"{idx}"
@@ -613,11 +561,12 @@ def corpus():
     b = {"id": "b", "txid": txid("w/b"), "ix": 0, "addr": "k0", "coin": 5 * ADA}
     c = {"id": "c", "txid": txid("w/c"), "ix": 0, "addr": "k0", "coin": 2_500_000}
     return [
-        # KF-C13-dup-candidate: `a` is an input and an address UTxO; inputs alone are short of 3 261 415
+        # regression f40c521 (was KF-C13-dup-candidate): `a` is an input and an address UTxO; inputs alone are
+        # short of 3 261 416 — `a` must be taken once, then `b`
         base([a, b], [{"op": "add_input", "u": "a"}], {"k0": ["a", "b"]}),
         # same, through potential inputs
         base([a, b], [{"op": "add_input", "u": "a"}, {"op": "potential", "u": "a"}, {"op": "potential", "u": "b"}], {}),
-        # KF-C13-max-inputs: two inputs needed, limit 1
+        # regression 81c8cba (was KF-C13-max-inputs): two inputs needed, limit 1 — must be refused
         base([a, c], [{"op": "add_input", "u": "a"}, {"op": "add_input", "u": "c"}], {}, {"max_collateral_inputs": 1}),
         # single ample candidate (the case the unit tests cover)
         base([b], [], {"k0": ["b"]}),
@@ -625,7 +574,7 @@ def corpus():
         base([b], [{"op": "collateral", "u": "b"}], {}),
         # KF-C13-fee-buffer
         base([b], [{"op": "c13_fee_buffer", "n": 3 * ADA}], {"k0": ["b"]}),
-        # KF-C13-floor: the maximum transaction is this transaction (size, memory, steps), percent 101:
+        # regression 3308efc (was KF-C13-floor): the maximum transaction is this transaction (size, memory, steps), percent 101:
         # fee == max_tx_fee == 172 760 and 172 760 * 101 is not a multiple of 100
         base([b], [], {"k0": ["b"]}, {"max_tx_size": FLOOR_SIZE, "max_mem": 1000, "max_steps": 1000000,
                                       "collateral_percent": 101}),
@@ -636,7 +585,7 @@ def run(ctx):
     _install()
     ctx.rule = ("builder scenarios running a Plutus script (spend with witness script / through a reference script only "
                 "/ mint) over 1..6 candidate UTxOs with coins on the boundaries 2 ADA-1/+0/+1, amt-1/+0/+1, "
-                "amt+threshold-1/+0/+1, amt+minADA-1/+0/+1 (amt = max_tx_fee*percent//100 from an independent "
+                "amt+threshold-1/+0/+1, amt+minADA-1/+0/+1 (amt = ceil(max_tx_fee*percent/100) from an independent "
                 "oracle), 30% token-carrying, script-address / base-address / other-key candidates, datum / inline "
                 "datum / reference-script carrying candidates (sort key), each candidate placed in 1, 2 or 3 of "
                 "(inputs, potential inputs, address UTxOs); 15% explicit collateral; percent in "
@@ -692,7 +641,7 @@ def systematic():
     """stream C: two key-locked candidates `a`, `b`, each in every non-empty subset of (inputs, potential inputs,
     address UTxOs) — 7 x 7 placements — for three coin pairs around the collateral amount (default parameters:
     3 261 415); only the collateral step is executed"""
-    amt = oracle_max_fee(S.DEFAULT_PARAMS, 0) * 150 // 100
+    amt = collateral_amount(S.DEFAULT_PARAMS, 0)
     subsets = [[w for w, bit in zip(("in", "pot", "addr"), (1, 2, 4)) if m & bit] for m in range(1, 8)]
     pairs = [(amt - 1, 10 * ADA), (2 * ADA + 1, 2 * ADA + 1), (amt, amt + plain_min_ada(4310)), (amt // 2 + 1, amt // 2 + 1)]
     for ca, cb in pairs:
